@@ -900,6 +900,9 @@ class Facts:
     def call_does_io(self, c):
         if c.path in IO_METHODS:
             return True
+        if c.path == "core::future::Future::poll":
+            # polling an already created future is accounted at the call that created it
+            return False
         io = self.does_io()
         return any(t in io for t in self.call_targets(c))
 
@@ -1022,3 +1025,22 @@ ELEM = (
     "VecInner::<T, LenT, S>::as_slice", "core::iter::Iterator::by_ref", "core::iter::Iterator::filter",
     "core::iter::Iterator::position",
 )
+
+
+def same_shape(a, b, depth=0):
+    """structural equality of two terms ignoring the block numbers of call sites"""
+    if depth > 60:
+        return False
+    if isinstance(a, tuple) and isinstance(b, tuple):
+        if len(a) != len(b) or a[0] != b[0]:
+            return False
+        rng = range(1, len(a))
+        for i in rng:
+            if a[0] == "call" and i == 1:
+                continue
+            if not same_shape(a[i], b[i], depth + 1):
+                return False
+        return True
+    if isinstance(a, list) and isinstance(b, list):
+        return len(a) == len(b) and all(same_shape(x, y, depth + 1) for x, y in zip(a, b))
+    return a == b
